@@ -20,7 +20,9 @@ import tlc
 FILES = ["spec/Core.tla", "spec/MC_Core.tla", "spec/MC_Core_quick.cfg", "spec/Trace_Core.tla", "spec/Trace_Core.cfg",
          "harness/fn_core.py", "harness/adapter.py", "harness/fnspec.py", "harness/tlc.py", "harness/corpus.py",
          "checks/_core.py"]
-QUICK_CASES = 120000
+QUICK_CASES = 100000
+QUICK_PAIRS2 = 40000        # two-action bundles
+THOROUGH_PAIRS2 = 400000
 REUSE = 200        # harness/fn_core.py REUSE: cases served by one engine
 NWORK = 16
 
@@ -64,10 +66,19 @@ def get(ctx):
     pairs = random.Random("core-%d" % ctx.seed).sample(pairs, QUICK_CASES)
   ctx.log("Core: %d distinct model states; %d of %d (state, action) cases go to the engine" % (
     res["distinct"], len(pairs), n_pairs))
+  # bundles of TWO actions (a seeded sample of first steps, each followed by a seeded second action; where the
+  # second is refused the whole bundle must be rolled back): applicability is decided by the judge
+  rnd = random.Random("core2-%d" % ctx.seed)
+  n2 = QUICK_PAIRS2 if ctx.quick else THOROUGH_PAIRS2
+  firsts = [rnd.choice(space["pairs"]) for _ in range(n2)]
+  cases = [{"S": space["states"][i - 1], "as": [space["actions"][j - 1]]} for i, j in pairs]
+  cases += [{"S": space["states"][i - 1], "as": [space["actions"][j - 1], rnd.choice(space["actions"])]}
+            for i, j in firsts]
+  rnd.shuffle(cases)
   args = []
   for w in range(NWORK):
     p = os.path.join(wd, "cases-%02d.json" % w)
-    json.dump([{"S": space["states"][i - 1], "a": space["actions"][j - 1]} for i, j in pairs[w::NWORK]], open(p, "w"))
+    json.dump(cases[w::NWORK], open(p, "w"))
     args.append({"inp": p, "out": os.path.join(wd, "obs-%02d.json" % w)})
   corpus.run_workers("fn_core.py", args)
   files = [a["out"] for a in args]
@@ -78,7 +89,7 @@ def get(ctx):
   ops = {}
   for f in files:
     for c in json.load(open(f)):
-      k = "%s/%s" % (c["a"]["op"], "rejected" if c["exc"] else "accepted")
+      k = "%s/%s" % ("+".join(a["op"] for a in c["as"]), "rejected" if c["exc"] else "accepted")
       ops[k] = ops.get(k, 0) + 1
   for f in fails:
     cases = None
@@ -89,11 +100,11 @@ def get(ctx):
       if cases is None:
         cases = json.load(open(f["file"]))
       start = ((f["i"] - 1) // REUSE) * REUSE
-      chunk = [{"S": c["S"], "a": c["a"]} for c in cases[start:f["i"]]]
+      chunk = [{"S": c["S"], "as": c["as"]} for c in cases[start:f["i"]]]
       c = f["case"]
       viol.append({"clause": cl, "core_chunk": chunk,
                    "what": "Core case %s from %s: exc=%r; after %s; after undo %s" % (
-                     json.dumps(c["a"]), json.dumps(c["S"]), c["exc"], json.dumps(c["after"]), json.dumps(c["undo"]))})
+                     json.dumps(c["as"]), json.dumps(c["S"]), c["exc"], json.dumps(c["after"]), json.dumps(c["undo"]))})
   if n and notes.get("Core.load-failed", 0) + notes.get("Core.load-mismatch", 0) > n // 2:
     raise tlc.MachineryError("Core: most cases could not be brought to their state: %r" % (notes,))
   out = {"violations": viol, "notes": notes, "n_cases": n, "n_pairs": n_pairs, "distinct": res["distinct"],
